@@ -7,6 +7,13 @@ int c_islin(int nval, double thresh, double tol, int npoints,
     int ierr=0, i, k, count, start, lintype;
     double dist, vprec, vnext, vcur;
 
+    /* Series too short to contain a linear stretch */
+    if(nval < 2)
+    {
+        for(i=0; i<nval; i++) islin[i] = 0;
+        return 0;
+    }
+
     /* initialisation */
     vprec = data[0];
     if(isnan(vprec)) vprec = thresh-1;
